@@ -52,10 +52,23 @@ func mixedGovChange(e *Env, r *fw.Rand) {
 				s = append(s, e.L.Accts[(i+2)%len(e.L.Accts)].Addr.String())
 			}
 		}
+		dup := ""
+		if e.DupSignersPct > 0 && r.Chance(e.DupSignersPct) {
+			// a list that names accounts more than once (valid: every entry is a well-formed address):
+			// four distinct accounts, two of them repeated, one of the repeats in upper case
+			s = nil
+			for i := 0; i < 4; i++ {
+				s = append(s, e.L.Accts[(i+r.Intn(2))%len(e.L.Accts)].Addr.String())
+			}
+			s = append(dedupStr(s), s[0], e.L.Accts[1].Upper(), s[len(s)-1])
+			n = 2
+			dup = " (entries repeated)"
+			e.C.Count("gov_signer_lists_with_repeats", 1)
+		}
 		p.EntSigners = strings.Join(s, ",")
 		p.MinAccepts = uint64(r.Range(1, n))
 		p.DecisionTimeLimit = r.PickU64([]uint64{3, 10, 60, 1000})
-		e.Gov(fmt.Sprintf("ent signers=%d min=%d limit=%d", n, p.MinAccepts, p.DecisionTimeLimit), &enttypes.MsgUpdateParams{Authority: lab.GovAuthority(), Params: p})
+		e.Gov(fmt.Sprintf("ent signers=%d%s min=%d limit=%d", n, dup, p.MinAccepts, p.DecisionTimeLimit), &enttypes.MsgUpdateParams{Authority: lab.GovAuthority(), Params: p})
 	case 1, 2:
 		regGovChange(e, r, "")
 	default:
